@@ -381,6 +381,26 @@ func ScalarSweeps(part, parts int, maxDelta uint64, f func(SweepCase)) {
 			}
 		}
 	}
+	// two events of more than a megabyte in one track (a chunk body that has
+	// outgrown every growth step when the second one arrives)
+	if part == 2%parts {
+		mk := func(n int, seed byte) []byte {
+			p := make([]byte, n)
+			for j := range p {
+				p[j] = (byte(j) + seed) & 0x7F
+			}
+			return p
+		}
+		alx := []Msg{{"SysEx1.5M", smf.Message(midi.SysEx(mk(1500000, 1)))}, {"SysEx2.2M", smf.Message(midi.SysEx(mk(2200000, 2)))}, {"Text1.1M", smf.MetaText(string(mk(1100000, 3)))}, {"NoteOn", midi.NoteOn(2, 1, 2)}}
+		for _, order := range [][]int{{0, 1}, {1, 0}, {2, 1}, {0, 2, 1}} {
+			ops := []Op{{Kind: OpAdd, D: 0, M1: 3}}
+			for _, m := range order {
+				ops = append(ops, Op{Kind: OpAdd, D: 1, M1: m})
+			}
+			ops = append(ops, Op{Kind: OpAdd, D: 0, M1: 3}, Op{Kind: OpSMFAdd})
+			f(SweepCase{Cfg{Ctor: 0, TF: smf.MetricTicks(960)}, alx, ops, "megabyte-events", fmt.Sprint(order)})
+		}
+	}
 	// deltas whose base-128 digits are all combinations of a few digit values
 	// (an encoder of its own in the writer may get any one digit position wrong)
 	digits := []uint64{0, 1, 0x2A, 0x55, 0x7F}
